@@ -30,6 +30,14 @@ extern ssize_t mpt_memcpy(ssize_t len,
 	int8_t	*source, *target;
 	size_t	total = 0, left, space;
 	
+	/* check maximum size, a list without parts is empty data */
+	if (len > 0) {
+		size_t pos;
+		for (total = 0, pos = 0; pos < nsrc;  ++pos) total += src[pos].iov_len;
+		if (len > (ssize_t) total) return -1;
+		for (total = 0, pos = 0; pos < ndest; ++pos) total += dest[pos].iov_len;
+		if (len > (ssize_t) total) return -2;
+	}
 	if (!ndest || !nsrc)
 		return 0;
 	
@@ -39,14 +47,6 @@ extern ssize_t mpt_memcpy(ssize_t len,
 	target = dest->iov_base;
 	space  = dest->iov_len;
 	
-	/* check maximum size */
-	if (len > 0) {
-		size_t pos;
-		for (total = left,  pos = 1; pos < nsrc;  ++pos) total += src[pos].iov_len;
-		if (len > (ssize_t) total) return -1;
-		for (total = space, pos = 1; pos < ndest; ++pos) total += dest[pos].iov_len;
-		if (len > (ssize_t) total) return -2;
-	}
 	total = 0;
 	
 	while (len) {
